@@ -4,6 +4,7 @@
 #include <netdb.h>
 #include <netinet/in.h>
 #include <netinet/tcp.h>
+#include <pthread.h>
 #include <signal.h>
 #include <stdarg.h>
 #include <stdio.h>
@@ -126,6 +127,23 @@ int setup_client_socket(struct uftrace_opts *opts)
 	return sock;
 }
 
+/*
+ * The writer threads of 'record' share one socket: a message must go out
+ * as a whole even if writev() returns a short count in the middle.
+ */
+static pthread_mutex_t send_lock = PTHREAD_MUTEX_INITIALIZER;
+
+static int send_iov(int sock, struct iovec *iov, int count)
+{
+	int ret;
+
+	pthread_mutex_lock(&send_lock);
+	ret = writev_all(sock, iov, count);
+	pthread_mutex_unlock(&send_lock);
+
+	return ret;
+}
+
 void send_trace_dir_name(int sock, char *name)
 {
 	ssize_t len = strlen(name);
@@ -174,7 +192,7 @@ void send_trace_data(int sock, int tid, void *data, size_t len)
 	};
 
 	pr_dbg2("send UFTRACE_MSG_SEND_DATA\n");
-	if (writev_all(sock, iov, ARRAY_SIZE(iov)) < 0)
+	if (send_iov(sock, iov, ARRAY_SIZE(iov)) < 0)
 		pr_err("send data failed");
 }
 
@@ -202,7 +220,7 @@ void send_trace_kernel_data(int sock, int cpu, void *data, size_t len)
 	};
 
 	pr_dbg2("send UFTRACE_MSG_SEND_KERNEL_DATA\n");
-	if (writev_all(sock, iov, ARRAY_SIZE(iov)) < 0)
+	if (send_iov(sock, iov, ARRAY_SIZE(iov)) < 0)
 		pr_err("send kernel data failed");
 }
 
@@ -230,7 +248,7 @@ void send_trace_perf_data(int sock, int cpu, void *data, size_t len)
 	};
 
 	pr_dbg2("send UFTRACE_MSG_SEND_PERF_DATA\n");
-	if (writev_all(sock, iov, ARRAY_SIZE(iov)) < 0)
+	if (send_iov(sock, iov, ARRAY_SIZE(iov)) < 0)
 		pr_err("send kernel data failed");
 }
 
